@@ -101,7 +101,11 @@ def gen_bo(tape, spec):
             # fault: the simulator fails once, in one batch; the exception leaves infer / iterate,
             # the user calls again and the run carries on without that batch
             'fail_bi': tape.int('failing_batch', 0, 7) if tape.chance('simulator_failure', 1, 5)
-            else None}
+            else None,
+            # fault: the client refuses ONE submission (transient scheduler / connection error)
+            # after the batch was prepared; the user calls again
+            'refuse_submit_at': tape.int('refused_submission', 1, 9)
+            if tape.chance('submission_refused', 1, 6) else None}
 
 
 def tm_xy(tm):
@@ -142,6 +146,18 @@ class BoRun:
             spec = pycopy.deepcopy(spec)
             simn = [n for n in spec['nodes'] if n['name'] == 'sim'][0]
             simn['cfg'] = dict(simn['cfg'], use_meta=True, fail_bi=cfg['fail_bi'])
+        if cfg.get('refuse_submit_at') is not None and cfg.get('fail_bi') is None:
+            inner_apply = self.client.apply
+            n_apply = [0]
+
+            def apply(kallable, *args, **kwargs):
+                n_apply[0] += 1
+                if n_apply[0] == cfg['refuse_submit_at']:
+                    out.stats['submit_refused'] += 1
+                    out.ev('C apply refused (transient error)')
+                    raise sp.SubmitRefused('injected transient submission failure')
+                return inner_apply(kallable, *args, **kwargs)
+            self.client.apply = apply
         model, _ = sp.build_model(elfi, spec)
         self.model = model
         self.lost = []
@@ -261,6 +277,12 @@ class BoRun:
         except sr.StepCap:
             self.out.inconclusive = True
             return 'cap'
+        except sp.SubmitRefused:
+            # nothing was registered for that submission; the user simply calls again (in sync
+            # mode the refusal hits the same batch under every schedule, so the comparison with
+            # the reference execution still applies)
+            self.out.stats['submit_refused_then_retry'] += 1
+            return self.drive(n_evidence, via_infer)
         except Exception as e:
             if isinstance(e, sp.InjectedFailure) or 'injected simulator failure' in str(e):
                 # the batch that failed is gone (it was taken off the pending list before its
